@@ -23,19 +23,22 @@ fn main() {
         }
         let close = rest[paren..].find(')').unwrap() + paren;
         let args = rest[paren + 1..close].trim();
-        let call = if args.is_empty() {
-            Some(String::new())
+        // every constructor is executed on several arguments of its type (all US-ASCII where the code documents a panic otherwise)
+        let calls: Vec<Option<String>> = if args.is_empty() {
+            vec![Some(String::new())]
         } else {
             let ty = args.split_once(':').map(|x| x.1.trim()).unwrap_or("");
-            match ty {
-                "impl AsRef<str>" => Some("\"/location\"".to_string()),
-                "&[&'static str]" => Some("&[\"GET\", \"HEAD\"]".to_string()),
-                "impl Into<String>" => Some("\"body text\"".to_string()),
-                "impl Into<ResponseBody>" => Some("\"body text\"".to_string()),
-                _ => None,
-            }
+            let v: &[&str] = match ty {
+                "impl AsRef<str>" => &["\"/location\"", "\"\"", "\"/a b\\r\\nx: y\"", "\"\\t\\x7f\\0\"", "&\"p\".repeat(5000)"],
+                "&[&'static str]" => &["&[\"GET\", \"HEAD\"]", "&[]", "&[\"G\\r\\nT\"]", "&[\"a b\", \"\"]"],
+                "impl Into<String>" | "impl Into<ResponseBody>" => &["\"body text\"", "\"\"", "\"line1\\r\\nline2\"", "\"\u{fc}\u{20ac}\""],
+                _ => &[],
+            };
+            if v.is_empty() { vec![None] } else { v.iter().map(|s| Some(s.to_string())).collect() }
         };
-        rows.push((name.to_string(), digits.to_string(), call));
+        for call in calls {
+            rows.push((name.to_string(), digits.to_string(), call));
+        }
     }
     let out_dir = std::env::var("OUT_DIR").unwrap();
     let mut f = std::fs::File::create(format!("{out_dir}/status_ctors.rs")).unwrap();
